@@ -783,7 +783,6 @@ func (r *rwRT) ruleConsumerDispatch() {
 	}
 }
 
-
 // runYieldFunc drives rewriteYieldFunc(funTy, body) — the entry point the per-file pass calls for every
 // generator — on a symbolic function type and body, whatever way it hands them on to its helpers
 // (fields of the rewriter or parameters). The four statement passes are boundary events.
